@@ -186,11 +186,34 @@ def _init_worker(fn_module, fn_name, repo):
     _worker_fn = getattr(importlib.import_module(fn_module), fn_name)
 
 
+class CaseTimeout(Exception):
+    pass
+
+
+def _on_alarm(signum, frame):
+    raise CaseTimeout("no answer within %d s" % CASE_SECONDS)
+
+
+CASE_SECONDS = 180
+
+
 def _run_batch(batch):
+    import signal
     out = []
+    signal.signal(signal.SIGALRM, _on_alarm)
     for case in batch:
         try:
-            out.append(_worker_fn(case))
+            signal.alarm(CASE_SECONDS)      # a replayed case takes milliseconds to seconds; a library call that never
+            try:                            # returns (a lock held across a yield, an endless loop) must not hang the check
+                out.append(_worker_fn(case))
+            finally:
+                signal.alarm(0)
+        except CaseTimeout as e:
+            small = {k: v for k, v in case.items() if k != "rec"} if isinstance(case, dict) else {}
+            out.append({"n": 1, "keys": [], "validated": 0,
+                        "fails": [({"kind": "library-hung", "seconds": CASE_SECONDS},
+                                   {"case": case.get("rec") if isinstance(case, dict) else None, "params": small,
+                                    "problem": str(e)})]})
         except Exception as e:
             import traceback
             frames = traceback.extract_tb(e.__traceback__)
